@@ -77,6 +77,12 @@
        documented for the crate's unsafe fn.
 
    PARTLY COVERED / NOT COVERED BY A THEOREM
+     [UPDATE, audit: see the APPENDED SECTION at the end of this file: the
+      environment-independent equation between the two disjoint variants incl.
+      the final callback state (C18_disjoint_mut_eq_unchecked), insert's full
+      specification and key uniqueness for insert_unchecked under the whole
+      contract (C18_insert_unchecked_spec, C18_insert_unchecked_keeps_uniq),
+      and histories containing insert_unchecked calls (C18_run_u_refines).]
      - C18_keeps_insert_unchecked / C18_conserves_insert_unchecked are stated for "room or
        debug".  For "full, key present, release build": safety, WF, capacity, content, result
        and drops are NOW the composed theorem C18_insert_unchecked_present_spec (lawful ==);
@@ -329,3 +335,271 @@ Example C18_example_present :
   l_insert kcls (Spec.elems m3) (k_ 9 6) (v_ 10 1) false
     = ([(k_ 1 5, v_ 2 7); (k_ 3 6, v_ 10 1); (k_ 5 7, v_ 6 9)], 1, Some (k_ 9 6, v_ 4 8)).
 Proof. repeat split; vm_compute; reflexivity. Qed.
+
+(* ========================================================================== *)
+(* APPENDED SECTION — audit findings closed (Proofs/MoreEq.v)                   *)
+(*                                                                            *)
+(* 10. get_disjoint_unchecked_mut vs get_disjoint_mut WITHOUT the narrowing      *)
+(*     hypotheses of C18_disjoint_unchecked_eq (no Lawful, no Uniq, no WF) and   *)
+(*     WITH the final callback state:                                            *)
+(*       C18_disjoint_mut_eq_unchecked, C18_disjoint_mut_panics,                 *)
+(*       C18_assert_distinct_ok, C18_disjoint_mut_eq_unchecked_lawful            *)
+(* 11. key uniqueness and the full specification of insert for insert_unchecked: *)
+(*       C18_keepsU_insert_unchecked, C18_Uniq_l_insert, C18_Uniq_l_insert_gen,  *)
+(*       C18_insert_unchecked_spec, C18_insert_unchecked_keeps_uniq              *)
+(* 12. every reachable state: histories containing insert_unchecked calls:       *)
+(*       C18_mstep_u_eq, C18_run_u_eq, C18_run_u_refines, C18_run_u_refines_new  *)
+(* ========================================================================== *)
+Require Import Proofs.Dict Proofs.ExecUniq Proofs.MoreEq.
+
+(* -------------------------------------------------------------------------- *)
+(* 10. The model (as the crate) defines get_disjoint_mut as the overlap assertion
+   assert_distinct followed by get_disjoint_unchecked_mut.  Hence, for ANY
+   environment (== may lie or panic), any state, any requested keys: if the
+   assertion returns in world w1, get_disjoint_mut from w IS
+   get_disjoint_unchecked_mut from w1 - same outcome kind, same slots, same
+   container, same log, same final callback state.  If the assertion panics in
+   w1, get_disjoint_mut panics in w1. *)
+Theorem C18_disjoint_mut_eq_unchecked :
+  forall (K V Q T : Type) (E : env K V Q T) (ks : list Q) (w w1 : world K V T),
+    assert_distinct E ks w = Ok tt w1 ->
+    get_disjoint_mut E ks w = get_disjoint_unchecked_mut E ks w1.
+Proof. exact (@disjoint_mut_eq_unchecked). Qed.
+Print Assumptions C18_disjoint_mut_eq_unchecked.
+
+Theorem C18_disjoint_mut_panics :
+  forall (K V Q T : Type) (E : env K V Q T) (ks : list Q) (w w1 : world K V T),
+    assert_distinct E ks w = Panic w1 -> get_disjoint_mut E ks w = Panic w1.
+Proof. exact (@disjoint_mut_panics). Qed.
+Print Assumptions C18_disjoint_mut_panics.
+
+(* "whenever the requested keys are pairwise different": under a lawful == and
+   pairwise different requested classes (NoDup (map cq ks)) the assertion RETURNS,
+   and the world it returns in is w with only the callback state replaced
+   (with_cb w s1: the q == q' calls it made advanced the callback state; container
+   and log are those of w).  Nothing is assumed about the container. *)
+Theorem C18_assert_distinct_ok :
+  forall (K V Q T : Type) (E : env K V Q T) (ck : K -> N) (cq : Q -> N),
+    Lawful E ck cq ->
+    forall (ks : list Q) (w : world K V T),
+      NoDup (List.map cq ks) ->
+      exists s1 : T, assert_distinct E ks w = Ok tt (with_cb w s1).
+Proof. exact (@assert_distinct_ok). Qed.
+Print Assumptions C18_assert_distinct_ok.
+
+Theorem C18_disjoint_mut_eq_unchecked_lawful :
+  forall (K V Q T : Type) (E : env K V Q T) (ck : K -> N) (cq : Q -> N),
+    Lawful E ck cq ->
+    forall (ks : list Q) (w : world K V T),
+      NoDup (List.map cq ks) ->
+      exists s1 : T,
+        assert_distinct E ks w = Ok tt (with_cb w s1) /\
+        get_disjoint_mut E ks w = get_disjoint_unchecked_mut E ks (with_cb w s1).
+Proof. exact (@disjoint_mut_eq_unchecked_lawful). Qed.
+Print Assumptions C18_disjoint_mut_eq_unchecked_lawful.
+
+(* on m3 with the three distinct keys of C18_example_disjoint: the assertion makes
+   3 comparisons and changes nothing else; the unchecked variant started in that
+   world gives literally the outcome of the checked variant (n_eq 10).  Second
+   part: an ADVERSARIAL script (== lies on about a quarter of the calls): whatever the
+   assertion and the search then do, the equation holds *)
+Example C18_example_disjoint_eq :
+  assert_distinct (env_map C18_sc0) [QCls 7; QCls 1; QCls 5] (w_of m3) =
+    Ok tt {| cb := {| n_eq := 3; n_clone := 0; n_call := 0; next_id := 100000 |}; log := []; self := m3 |} /\
+  get_disjoint_mut (env_map C18_sc0) [QCls 7; QCls 1; QCls 5] (w_of m3) =
+  get_disjoint_unchecked_mut (env_map C18_sc0) [QCls 7; QCls 1; QCls 5]
+    {| cb := {| n_eq := 3; n_clone := 0; n_call := 0; next_id := 100000 |}; log := []; self := m3 |} /\
+  let adv := {| sc_adv := true; sc_seed := 3; sc_fk := 0; sc_fa := 0 |} in
+  match assert_distinct (env_map adv) [QCls 7; QCls 1; QCls 5] (w_of m3) with
+  | Ok _ w1 => get_disjoint_mut (env_map adv) [QCls 7; QCls 1; QCls 5] (w_of m3) =
+               get_disjoint_unchecked_mut (env_map adv) [QCls 7; QCls 1; QCls 5] w1
+  | Panic w1 => get_disjoint_mut (env_map adv) [QCls 7; QCls 1; QCls 5] (w_of m3) = Panic w1
+  | UB => False
+  end.
+Proof. split; [vm_compute; reflexivity|]. split; vm_compute; reflexivity. Qed.
+
+(* -------------------------------------------------------------------------- *)
+(* 11. "Within those preconditions both uphold every other guarantee (... key
+   uniqueness ... stored-key identity)".
+   C18_keepsU_insert_unchecked (ExecUniq.keepsU_insert_unchecked, the lemma the
+   history theorem ExecUniq.step_uniq uses): lawful ==, well-formed container
+   with pairwise different keys, room left (or debug assertions on): in BOTH
+   outcomes (return / panic) the container is well formed, keeps its capacity and
+   its keys are still pairwise different.
+   C18_Uniq_l_insert / _gen: the list-level fact: the list machine's insert keeps
+   keys pairwise different. *)
+Theorem C18_keepsU_insert_unchecked :
+  forall (V : Type) (E : env key V query cstate) (debug : bool),
+    Lawful E kcls qcls ->
+    forall (k : key) (v : V) (w : world key V cstate),
+      WF (self w) ->
+      Uniq kcls (Spec.elems (self w)) ->
+      debug = true \/ len (self w) < cap (self w) ->
+      wp (insert_unchecked E debug k v)
+         (fun (_ : option V) (w' : world key V cstate) =>
+            WF (self w') /\ cap (self w') = cap (self w) /\ Uniq kcls (Spec.elems (self w')))
+         (fun w' : world key V cstate =>
+            WF (self w') /\ cap (self w') = cap (self w) /\ Uniq kcls (Spec.elems (self w')))
+         w.
+Proof. exact (@keepsU_insert_unchecked). Qed.
+Print Assumptions C18_keepsU_insert_unchecked.
+
+Theorem C18_Uniq_l_insert :
+  forall (V : Type) (l : list (key * V)) (k : key) (v : V) (u : bool),
+    Uniq kcls l -> Uniq kcls (fst (fst (l_insert kcls l k v u))).
+Proof. exact (@Uniq_l_insert). Qed.
+Print Assumptions C18_Uniq_l_insert.
+
+Theorem C18_Uniq_l_insert_gen :
+  forall (K V : Type) (ck : K -> N) (l : list (K * V)) (k : K) (v : V) (u : bool),
+    Uniq ck l -> Uniq ck (fst (fst (l_insert ck l k v u))).
+Proof. exact (@Uniq_l_insert_gen). Qed.
+Print Assumptions C18_Uniq_l_insert_gen.
+
+(* The WHOLE contract in its specification-level form - "the map is not full OR
+   a key of the same class is stored" - lawful ==, release or debug build: then
+   insert_unchecked has the normal-return specification of insert
+   (Lawful3.insert_lawful, Props/C01.v: the list machine's l_insert on the
+   content, so a present key keeps the STORED key object and only the value
+   changes; the old value is returned; exactly the displaced duplicate key is
+   destroyed) and - unlike insert - can neither panic nor reach UB. *)
+Theorem C18_insert_unchecked_spec :
+  forall (K V Q T : Type) (E : env K V Q T) (debug : bool) (ck : K -> N) (cq : Q -> N),
+    Lawful E ck cq ->
+    forall (k : K) (v : V) (w : world K V T),
+      WF (self w) ->
+      len (self w) < cap (self w) \/ (exists i : nat, find_idx ck (ck k) (Spec.elems (self w)) = Some i) ->
+      wp (insert_unchecked E debug k v)
+         (fun (r : option V) (w' : world K V T) =>
+            WF (self w') /\
+            cap (self w') = cap (self w) /\
+            Spec.elems (self w') = fst (fst (l_insert ck (Spec.elems (self w)) k v false)) /\
+            r = option_map snd (snd (l_insert ck (Spec.elems (self w)) k v false)) /\
+            logged w w' (match snd (l_insert ck (Spec.elems (self w)) k v false) with
+                         | Some (k', _) => ev_drops (idK E k')
+                         | None => []
+                         end))
+         (fun _ : world K V T => False)
+         w.
+Proof. exact (@insert_unchecked_spec). Qed.
+Print Assumptions C18_insert_unchecked_spec.
+
+(* ... and key uniqueness under the whole contract, for a general class function *)
+Theorem C18_insert_unchecked_keeps_uniq :
+  forall (K V Q T : Type) (E : env K V Q T) (debug : bool) (ck : K -> N) (cq : Q -> N),
+    Lawful E ck cq ->
+    forall (k : K) (v : V) (w : world K V T),
+      WF (self w) ->
+      Uniq ck (Spec.elems (self w)) ->
+      len (self w) < cap (self w) \/ (exists i : nat, find_idx ck (ck k) (Spec.elems (self w)) = Some i) ->
+      wp (insert_unchecked E debug k v)
+         (fun (_ : option V) (w' : world K V T) =>
+            WF (self w') /\ cap (self w') = cap (self w) /\ Uniq ck (Spec.elems (self w')))
+         (fun _ : world K V T => False)
+         w.
+Proof. exact (@insert_unchecked_keeps_uniq). Qed.
+Print Assumptions C18_insert_unchecked_keeps_uniq.
+
+(* both disjuncts of the contract are inhabited: C18_example_WF_room (room) and
+   C18_example_present (present on the FULL map m3) *)
+Example C18_example_contract :
+  (len (self (w_of C18_m1)) < cap (self (w_of C18_m1)) \/
+   exists i : nat, find_idx kcls (kcls (k_ 9 6)) (Spec.elems (self (w_of C18_m1))) = Some i) /\
+  (len (self (w_of m3)) < cap (self (w_of m3)) \/
+   exists i : nat, find_idx kcls (kcls (k_ 9 6)) (Spec.elems (self (w_of m3))) = Some i).
+Proof. split; [left; cbn; lia | right; exists 1; vm_compute; reflexivity]. Qed.
+
+(* -------------------------------------------------------------------------- *)
+(* 12. "every reachable state".  Histories of dictionary operations in which any
+   number of inserts go through insert_unchecked:
+     uop                       UBase o (one of the 13 operations of Dict.dop) or
+                               UInsertUnchecked k v;
+     mstep_u / mrun_u / mfinal_u   the model running such an operation / history
+                               (results; final world, None = UB on the way);
+     erase                     UInsertUnchecked k v |-> DInsert k v;
+     contract_u ck n o d       the documented contract of insert_unchecked checked
+                               on the IDEAL dictionary d of capacity n: the key's
+                               class is present (d_find .. <> None) or
+                               length d < n; True for the other operations;
+     contracts_u ck cq n ops d the contract holds at every insert_unchecked of the
+                               history, along the ideal run (Dict.dstep).
+   From any state that abstracts to an ideal dictionary (Dict.Abs: well formed,
+   keys pairwise different, same associations) - in particular from the empty
+   container - such a history has EXACTLY the results and the final world (the
+   container, the event log, the callback state) of the history in which every
+   insert_unchecked is replaced by insert; hence (Dict.run_refines) the results
+   of the ideal dictionary, no UB, and a final container that again abstracts to
+   the ideal final dictionary: every guarantee proved for reachable states holds
+   on states reached through insert_unchecked within its contract. *)
+Theorem C18_mstep_u_eq :
+  forall (K V Q T : Type) (E : env K V Q T) (debug : bool) (ck : K -> N) (cq : Q -> N),
+    Lawful E ck cq ->
+    forall (n : nat) (o : @uop K V Q) (w : world K V T) (d : list (K * V)),
+      Abs ck (self w) d ->
+      cap (self w) = n ->
+      contract_u ck n o d ->
+      mstep_u E debug o w = mstep E debug (erase o) w.
+Proof. exact (@mstep_u_eq). Qed.
+Print Assumptions C18_mstep_u_eq.
+
+Theorem C18_run_u_eq :
+  forall (K V Q T : Type) (E : env K V Q T) (debug : bool) (ck : K -> N) (cq : Q -> N),
+    Lawful E ck cq ->
+    forall (n : nat) (ops : list (@uop K V Q)) (w : world K V T) (d : list (K * V)),
+      Abs ck (self w) d ->
+      cap (self w) = n ->
+      contracts_u ck cq n ops d ->
+      mrun_u E debug ops w = mrun E debug (List.map erase ops) w /\
+      mfinal_u E debug ops w = mfinal E debug (List.map erase ops) w.
+Proof. exact (@run_u_eq). Qed.
+Print Assumptions C18_run_u_eq.
+
+Theorem C18_run_u_refines :
+  forall (K V Q T : Type) (E : env K V Q T) (debug : bool) (ck : K -> N) (cq : Q -> N),
+    Lawful E ck cq ->
+    forall (n : nat) (ops : list (@uop K V Q)) (w : world K V T) (d : list (K * V)),
+      Abs ck (self w) d ->
+      cap (self w) = n ->
+      contracts_u ck cq n ops d ->
+      mrun_u E debug ops w = drun ck cq n (List.map erase ops) d /\
+      (exists wf : world K V T,
+          mfinal_u E debug ops w = Some wf /\
+          Abs ck (self wf) (dfinal ck cq n (List.map erase ops) d) /\ cap (self wf) = n).
+Proof. exact (@run_u_refines). Qed.
+Print Assumptions C18_run_u_refines.
+
+Theorem C18_run_u_refines_new :
+  forall (K V Q T : Type) (E : env K V Q T) (debug : bool) (ck : K -> N) (cq : Q -> N),
+    Lawful E ck cq ->
+    forall (n : nat) (ops : list (@uop K V Q)) (s : T) (lg : list event),
+      contracts_u ck cq n ops [] ->
+      mrun_u E debug ops {| cb := s; log := lg; self := new_map n |} = drun ck cq n (List.map erase ops) [] /\
+      (exists wf : world K V T,
+          mfinal_u E debug ops {| cb := s; log := lg; self := new_map n |} = Some wf /\
+          Abs ck (self wf) (dfinal ck cq n (List.map erase ops) []) /\ cap (self wf) = n).
+Proof. exact (@run_u_refines_new). Qed.
+Print Assumptions C18_run_u_refines_new.
+
+(* a history on a map of capacity 2 whose contract holds everywhere: unchecked
+   insert with room; checked insert (map now FULL); unchecked insert of a PRESENT
+   class on the full map; removal; unchecked insert with room again.  The run:
+   results and final container *)
+Example C18_example_history :
+  let ops : list (@uop key vobj query) :=
+    [UInsertUnchecked (k_ 1 5) (v_ 2 7); UBase (DInsert (k_ 3 6) (v_ 4 8));
+     UInsertUnchecked (k_ 9 6) (v_ 10 1); UBase (DRemove (QCls 5));
+     UInsertUnchecked (k_ 11 4) (v_ 12 3)] in
+  contracts_u kcls qcls 2 ops [] /\
+  mrun_u (env_map C18_sc0) false ops (w_of (new_map 2)) =
+    [RNone; RNone; RVal (v_ 4 8); RVal (v_ 2 7); RNone] /\
+  match mfinal_u (env_map C18_sc0) false ops (w_of (new_map 2)) with
+  | Some wf => self wf = {| len := 2; slots := [Some (k_ 3 6, v_ 10 1); Some (k_ 11 4, v_ 12 3)] |}
+  | None => False
+  end.
+Proof.
+  cbv zeta. split.
+  - cbn [contracts_u contract_u erase]. split; [right; cbn; lia|]. split; [exact I|].
+    split; [left; vm_compute; discriminate|]. split; [exact I|].
+    split; [right; vm_compute; lia | exact I].
+  - split; vm_compute; reflexivity.
+Qed.
